@@ -238,6 +238,14 @@ impl Property for RefProp {
             // a case of the cell-typing part (matrix / near misses under the monitor)
             return crate::props::soundness::C13_CELLS.check_case(case, stats);
         }
+        if case["kind"].as_str() == Some("repl-executable") {
+            // sessions through the REPL executable: what a name denotes on a later line is what the lines
+            // before it declared, also when a line failed after declaring something
+            return match crate::props::c17::check_repl_executable(case, stats) {
+                Verdict::Fail(f) => fail(format!("C06:repl-executable:{}", f.sig.rsplit(':').next().unwrap_or("answer")), f.msg),
+                v => v,
+            };
+        }
         if case["kind"].as_str() == Some("type-test") {
             // run-time type tests (if-set, type arms, while-set, type filter) on values of compound types
             // whose components overlap partly with the tested type: decided by the value's run-time type
@@ -1069,6 +1077,23 @@ pub fn run(session: &Session, prop: &'static RefProp, rule: &str) -> i32 {
     if prop.id == "C06" && !session.stopped() {
         let cases = scope_cases();
         session.set_extra("binder_scope_cases", json!(cases.len()));
+        session.run_enum(prop, cases);
+    }
+    if prop.id == "C06" && !session.stopped() {
+        let mut cases = vec![];
+        for inputs in [
+            vec!["zero := mut 0; x := 1;", "x := 2; y := 1 / *zero;", "x"],
+            vec!["zero := mut 0; f := () -> int { return 1; };", "f := () -> int { return 2; }; y := [1][5 + *zero];", "f()"],
+            vec!["zero := mut 0; x := 1;", "x := 2; y := 1 / *zero; x := 3;", "x", "y := 7;", "(x, y)"],
+            vec!["zero := mut 0; c := mut 5;", "d := c; c := mut 9; e := 1 % *zero;", "(*c, *d)"],
+            vec!["x := 1;", "g := () -> int { return x; };", "x := 2;", "(g(), x)"],
+            vec!["x := 1;", "{ x := 2; x }", "x", "m := mod { x := 3; };", "(x, m.x)"],
+            vec!["x := 1;", "for x in [5]~ { x }", "x", "if x: int = 7 { x } else { 0 }", "x"],
+            vec!["f := (x: int) -> int { y := x + 1; return y; };", "f(1)", "f", "x := 5; y := 6;", "(f(x), y)"],
+        ] {
+            let items: Vec<Json> = inputs.iter().map(|t| json!({"declares": [], "text": t})).collect();
+            cases.push(json!({"kind": "repl-executable", "files": {}, "inputs": items, "binary": true}));
+        }
         session.run_enum(prop, cases);
     }
     if (prop.id == "C06" || prop.id == "C07" || prop.id == "C13") && !session.stopped() {
